@@ -94,7 +94,7 @@ macro "wcv_inner" : tactic => `(tactic| (
   clear_value wta
   have hz : za = (ws2d (cleanOf (missG nodata isnan isinf) y) cu
       (mul2 (weightsOf (missG nodata isnan isinf) y) rwa.toList)).toArray := by
-    rw [show za = Gen.Ws2d.ws2d ya cu wta from rfl, gen_ws2d_arr _ _ _ hwsz (by omega), hya, hwt]))
+    rw [show za = Gen.Ws2d.ws2d ya cu wta from rfl, gen_ws2d_arrW _ _ _ hwsz (by omega), hya, hwt]))
 
 set_option hygiene false in
 /-- the λ values of the current iteration: `[robust_gcv[1][1]]` if `it > 1`, `10 ** llas` otherwise -/
